@@ -30,7 +30,7 @@ RULE = ("family counts: the probed D9 input, then seeded random phase-matched se
         "threshold from {1e-2,1e-4,0.1,0.25}; per setup a grid of frequency pairs inside the "
         "support (pump direction: core and the wings thr <= alpha < sqrt(thr), just inside and beyond the threshold contour; x "
         "anti-diagonal through +-1.6 first zeros; pairs with vanishing singles are not skipped) under Gauss-Legendre-40 and Simpson-200, the rates and "
-        "efficiencies on a square core grid and on a 7x7 grid reaching beyond the threshold contour, the singles integrand through 7 low-order rules; mode singles: the integrand on random "
+        "efficiencies on a square core grid and on a 7x7 grid reaching beyond the threshold contour, every third setup a call-history sequence of SPDC::efficiencies (two integrators, one parameter changed, repeat) compared with freshly evaluated spectra, the singles integrand through 7 low-order rules; mode singles: the integrand on random "
         "general setups (non-collinear, apodised, counter-propagating); mode limit: collinear waists 1-5 mm, ratio vs eta F^2/R; "
         "mode eff: 13^3 corner triples + random triples (zero, subnormal, tiny, huge)")
 RESIDUAL = ("the pointwise inequality jsi <= min(singles) between the two independent closed forms (hypothesis of the theorems; "
